@@ -108,6 +108,24 @@ class Run:
                              "refuted": r.get("violated"), "wall_s": round(r["wall"], 1)})
         return r
 
+    def apalache_inductive(self, module, what, cinit="ConstInit", init="Init", indinit="IndInit", inv="IndInv", timeout=600):
+        """Init => Inv (length 0) and Inv /\\ Next => Inv' (length 1) with Apalache; failure => inconclusive (specification bug)."""
+        wd = tempfile.mkdtemp(prefix="apa-", dir=self.scratch)
+        shutil.copy(os.path.join(self.specdir, module + ".tla"), wd)
+        t = time.time()
+        for i0, length in ((init, 0), (indinit, 1)):
+            try:
+                p = subprocess.run(["apalache-mc", "check", "--cinit=" + cinit, "--init=" + i0, "--inv=" + inv, "--length=%d" % length, module + ".tla"],
+                                   cwd=wd, stdout=subprocess.PIPE, stderr=subprocess.STDOUT, text=True, timeout=timeout)
+                out = p.stdout
+            except subprocess.TimeoutExpired:
+                raise Inconclusive("apalache timed out on %s (%s)" % (module, what))
+            if "The outcome is: NoError" not in out:
+                raise Inconclusive("apalache did not discharge %s of %s (%s):\n%s" % ("initiation" if length == 0 else "consecution", module, what, out[-2500:]))
+        shutil.rmtree(wd, ignore_errors=True)
+        self.mc_runs.append({"what": what + " (Apalache: inductive invariant, initiation + consecution)", "module": module, "obligations": 2, "discharged": 2,
+                             "wall_s": round(time.time() - t, 1)})
+
     def generate(self, module, cfg, files, timeout=600):
         """Let TLC evaluate a generator module that writes NDJSON scenario files."""
         r = self.tlc(module, cfg, workers=1, timeout=timeout)
